@@ -50,6 +50,21 @@ func CheckProperty(t *testing.T, prop string, b kit.Budget, gen func(*rapid.T) *
 		w := gen(t)
 		v := judge(w)
 		classes := append([]string{fmt.Sprintf("cycles:%d", len(v.History.Cycles))}, v.Classes...)
+		if w.PersistentScheduler {
+			classes = append(classes, "one-scheduler-process-for-all-cycles")
+		}
+		if w.HasMutations() {
+			classes = append(classes, "api-objects-changed-between-cycles")
+		}
+		for _, rec := range v.History.Cycles {
+			if rec.NotCaughtUp {
+				classes = append(classes, "inconclusive:informers-never-matched-store:"+rec.NotCaughtUpWhy)
+				kit.Inconclusive()
+			} else if rec.Starved {
+				classes = append(classes, "inconclusive:cycle-starved-of-cpu")
+				kit.Inconclusive()
+			}
+		}
 		kit.Eval(kit.HexKey(w), v.Nontrivial, classes...)
 		if v.Nontrivial && kit.WantSample() {
 			kit.Sample(map[string]any{"world": w, "calls_per_cycle": Traces(v.History)})
